@@ -73,6 +73,87 @@ theorem classify_exact (old new : Project) (n : String) (st : String) :
     · exact Or.inr ⟨(n, c), hc, by simp [hl]⟩
     · exact Or.inl ⟨(n, c), hc, by simp [hl, hcmp]⟩
 
+/-! ### Effect on the running instances -/
+
+theorem mem_applyUpdate {cur : List Inst} {new : Project} {next : Nat} {x : Inst} (h : x ∈ applyUpdate cur new next) :
+    ∃ i n c, new[i]? = some (n, c) ∧
+      x = (match findInst cur n with
+        | some old => if cfgEqual old.cfg c then old else { name := n, cfg := c, id := next + i }
+        | none => { name := n, cfg := c, id := next + i }) := by
+  unfold applyUpdate at h
+  obtain ⟨i, hi, rfl⟩ := List.mem_mapIdx.mp h
+  exact ⟨i, (new[i]).1, (new[i]).2, by simp [hi], rfl⟩
+
+/-- **The project converges to the new one**: afterwards exactly the processes of the new project
+    are configured, in its order -/
+theorem converges_names (cur : List Inst) (new : Project) (next : Nat)
+    (hname : ∀ i ∈ cur, ∀ n, findInst cur n = some i → i.name = n) :
+    (applyUpdate cur new next).map (·.name) = new.map (·.1) := by
+  unfold applyUpdate
+  apply List.ext_getElem?
+  intro i
+  simp only [List.getElem?_map, List.getElem?_mapIdx]
+  cases hi : new[i]? with
+  | none => simp
+  | some nc =>
+    simp only [Option.map_some]
+    cases hf : findInst cur nc.1 with
+    | none => simp
+    | some old =>
+      have hmem : old ∈ cur := List.mem_of_find?_eq_some hf
+      by_cases hc : cfgEqual old.cfg nc.2 = true
+      · simp [hc, hname old hmem nc.1 hf]
+      · simp [hc]
+
+theorem findInst_name {cur : List Inst} {n : String} {i : Inst} (h : findInst cur n = some i) : i.name = n := by
+  unfold findInst at h
+  simpa using List.find?_some h
+
+/-- **An unchanged process is left alone**: it keeps its instance -/
+theorem unchanged_kept (cur : List Inst) (new : Project) (next : Nat) (i : Nat) (n : String) (c : Config) (old : Inst)
+    (hi : new[i]? = some (n, c)) (hold : findInst cur n = some old) (heq : cfgEqual old.cfg c = true) :
+    (applyUpdate cur new next)[i]? = some old := by
+  unfold applyUpdate
+  simp [List.getElem?_mapIdx, hi, hold, heq]
+
+/-- **A changed or new process gets a fresh instance with the new configuration** -/
+theorem changed_replaced (cur : List Inst) (new : Project) (next : Nat) (i : Nat) (n : String) (c : Config)
+    (hi : new[i]? = some (n, c))
+    (hch : findInst cur n = none ∨ ∃ old, findInst cur n = some old ∧ cfgEqual old.cfg c = false) :
+    (applyUpdate cur new next)[i]? = some { name := n, cfg := c, id := next + i } := by
+  unfold applyUpdate
+  rcases hch with h | ⟨old, h, hne⟩
+  · simp [List.getElem?_mapIdx, hi, h]
+  · simp [List.getElem?_mapIdx, hi, h, hne]
+
+/-- fresh instances are new: no instance number below `next` is reused for them -/
+theorem fresh_ids (cur : List Inst) (new : Project) (next : Nat) (hcur : ∀ x ∈ cur, x.id < next)
+    (x : Inst) (hx : x ∈ applyUpdate cur new next) : x ∈ cur ∨ next ≤ x.id := by
+  obtain ⟨i, n, c, _, rfl⟩ := mem_applyUpdate hx
+  cases hf : findInst cur n with
+  | none => right; simp
+  | some old =>
+    by_cases hc : cfgEqual old.cfg c = true
+    · left; simp only [hc, ↓reduceIte]; exact List.mem_of_find?_eq_some hf
+    · right; simp [hc]
+
+/-- **Removed processes are gone**: nothing outside the new project stays configured -/
+theorem removed_gone (cur : List Inst) (new : Project) (next : Nat) (x : Inst) (hx : x ∈ applyUpdate cur new next) :
+    ∃ c, (x.name, c) ∈ new := by
+  obtain ⟨i, n, c, hi, rfl⟩ := mem_applyUpdate hx
+  have hmem : (n, c) ∈ new := List.mem_of_getElem? hi
+  cases hf : findInst cur n with
+  | none => exact ⟨c, by simpa using hmem⟩
+  | some old =>
+    by_cases hc : cfgEqual old.cfg c = true
+    · simp only [hc, ↓reduceIte]
+      rw [findInst_name hf]; exact ⟨c, hmem⟩
+    · simp only [hc, Bool.false_eq_true, ↓reduceIte]; exact ⟨c, hmem⟩
+
+example : applyUpdate [⟨"a", [("Command", "x")], 0⟩, ⟨"b", [("Command", "y")], 1⟩]
+    [("a", [("Command", "x")]), ("c", [("Command", "z")]), ("b", [("Command", "y2")])] 2
+    = [⟨"a", [("Command", "x")], 0⟩, ⟨"c", [("Command", "z")], 3⟩, ⟨"b", [("Command", "y2")], 4⟩] := by decide
+
 example : classify [("a", [("Command", "x")]), ("b", [("Command", "y")])]
                    [("a", [("Command", "x")]), ("c", [("Command", "z")]), ("b", [("Command", "y2")])]
     = [("c", "added"), ("b", "updated")] := by decide
